@@ -54,8 +54,23 @@ def _name(r: random.Random, style: str) -> str:
         n = r.randint(200, 420)
         return 'L' + ''.join(r.choice(_ASCII + ' ' + _UNI) for _ in range(n)) + 'x'
     if style == 'numeric':
-        return r.choice(['1', '-1', '0.5', 'nan', 'inf', '1e5', 'True', 'None', '0'])
+        return r.choice(['1', '-1', '0.5', 'nan', 'inf', '-inf', '1e5', 'True', 'None', '0', '1.0', '0x10', '1_000'])
+    w = ''.join(r.choice(_ASCII) for _ in range(r.randint(1, 6)))
+    if style == 'comment':
+        # what a reader of hand-edited files may take for a comment, a section or a string
+        return r.choice(['#', '# ', '  # of ', ';', '; ', '//', '// ', '--', '%', '!', '[', '[' + w + '] ', '"', "'", '"' + w + '" ', "'" + w + "' ",
+                         '<', '{', '(', '\\', '*', '@']) + w
+    if style == 'edge-blank':
+        return r.choice([' ', '  ', '\t', '\u00a0']) * r.randint(0, 2) + w + r.choice([' ', '  ', '\t', '\u00a0', ''])
+    if style == 'equals':
+        return r.choice([w + ' = ' + w, w + '=' + w, w + ' = 1.5', '= ' + w, w + ' =', w + ' = ' + w + ' = 2', '=' + w, w + '= '])
+    if style == 'bracketed':
+        return r.choice(['[' + w + ']', '(' + w + ')', '{' + w + '}', w + '[1]', w + '(2)', '"' + w + '"', "'" + w + "'", w + ',' + w, w + ', ' + w,
+                         '`' + w + '`', w + '"', w + "'s"])
     raise ValueError(style)
+
+
+HOSTILE_STYLES = ['plain', 'spaces', 'unicode', 'punct', 'numeric', 'comment', 'comment', 'edge-blank', 'equals', 'bracketed', 'spaces', 'unicode']
 
 
 def make_names(r: random.Random, k: int, mode: str) -> list[str]:
@@ -68,13 +83,35 @@ def make_names(r: random.Random, k: int, mode: str) -> list[str]:
         elif mode == 'long':
             st = 'long'
         else:
-            st = r.choice(['plain', 'spaces', 'unicode', 'punct', 'numeric', 'spaces', 'unicode', 'punct', 'long' if k <= 12 else 'plain'])
-        n = _name(r, st)
-        # one name must not be 'another name + " = ..."' prefix-ambiguous for the reader of the file
-        if n in seen or n != n.strip() or '=' in n:
+            st = r.choice(HOSTILE_STYLES + (['long'] if k <= 12 else ['plain']))
+        if mode == 'hostile' and out and r.random() < 0.12:
+            # a name equal to another one plus a trailing / leading blank, or plus ' = <number>'
+            n = r.choice(out)
+            n = r.choice([n + ' ', ' ' + n, n + ' = 1', n + '  ', '#' + n])
+        else:
+            n = _name(r, st)
+        if n in seen or not n.strip() or '\n' in n or '\r' in n:
             continue
         seen.add(n)
         out.append(n)
+    return out
+
+
+def name_class(n: str) -> list[str]:
+    out = []
+    if n != n.strip():
+        out.append('edge_white_space')
+    if n.lstrip()[:1] in '#;%![<{(*@"\'-' or n.lstrip()[:2] in ('//', '--'):
+        out.append('comment_or_section_like_start')
+    if '=' in n:
+        out.append('equals_sign')
+    if any(ch in n for ch in '[](){}"\',`'):
+        out.append('brackets_quotes_commas')
+    try:
+        float(n)
+        out.append('reads_as_number')
+    except ValueError:
+        pass
     return out
 
 
@@ -232,6 +269,25 @@ def build_logit(spec: dict):
     v = {1: ps[0] + ps[1] * Variable('x1') + ps[2] * Variable('z'), 2: ps[1] * Variable('x2')}
     ll = models.loglogit(v, None, Variable('choice'))
     return db, ll
+
+
+def logit_reference(spec: dict, values: dict) -> float:
+    """independent numpy value of the binary-logit log likelihood on the estimation data"""
+    import numpy as np
+
+    a = np.asarray(spec['rows'], dtype=float)
+    b0, b1, b2 = (np.float64(values[p['name']]) for p in spec['params'])
+    with np.errstate(all='ignore'):
+        v1 = b0 + b1 * a[:, 0] + b2 * a[:, 2]
+        v2 = b1 * a[:, 1]
+        m = np.maximum(v1, v2)
+        lse = m + np.log(np.exp(v1 - m) + np.exp(v2 - m))
+        ll = np.where(a[:, 3] == 1, v1, v2) - lse
+    return float(ll.sum())
+
+
+def reference(spec: dict, values: dict) -> float:
+    return quad_reference(spec, values) if spec['kind'] == 'quad' else logit_reference(spec, values)
 
 
 def build(spec: dict):
